@@ -1,9 +1,24 @@
 import ObiVerif.Model.ReadErr
+import ObiVerif.Lemmas.ReadErr
 /-!
 # C17 — truncated or corrupt compressed input is reported, never silently accepted (property theorems)
+
+All theorems hold for every stream (any bytes, any length, the error at any position), every buffer
+size `bufsz ≥ 2` and every record splitter satisfying `SplitterOK`; `fasta_splitter_ok` shows that the
+executable FASTA splitter of the model satisfies that contract.
 -/
 namespace ObiVerif.Props.C17
 open ObiVerif.ReadErr
+
+/-- contract of a record splitter: `-1` (no complete record in the buffer yet) or the offset at which
+the last record starts, which is at least 1 and at most the length of the buffer -/
+def SplitterOK (split : Bytes → Int) : Prop :=
+  ∀ b : Bytes, split b = -1 ∨ (1 ≤ split b ∧ split b ≤ (b.length : Int))
+
+/-- the example stream `">a\nac\n>b\ngg\n"` -/
+def exData : Bytes := [62, 97, 10, 97, 99, 10, 62, 98, 10, 103, 103, 10]
+
+/-! ## the format guesser -/
 
 /-- the format guesser refuses every stream shorter than its peek that ends with an error other than
 a clean end of file -/
@@ -13,5 +28,226 @@ theorem guessPeek_error_fatal (peek : Nat) (s : Stream) (hlen : s.data.length < 
   have : ¬ (peek ≤ s.data.length - 0) := by omega
   simp only [this, if_false]
   all_goals (cases hf : s.final <;> simp_all)
+
+example : guessPeek 1048576 ⟨exData, .ueof⟩ = .fatal :=
+  guessPeek_error_fatal _ _ (by decide) (by decide)
+
+/-- a non-empty stream that ends cleanly is accepted by the format guesser -/
+theorem guessPeek_clean_ok (peek : Nat) (s : Stream) (he : s.final = Err.eof) (hne : s.data ≠ []) :
+    guessPeek peek s = .ok := by
+  unfold guessPeek readFull
+  simp only [Nat.sub_zero, List.drop_zero]
+  by_cases h : peek ≤ s.data.length
+  · simp [h]
+  · simp [h, he, hne]
+
+example : guessPeek 1048576 ⟨exData, .eof⟩ = .ok :=
+  guessPeek_clean_ok _ _ rfl (by decide)
+
+/-- a stream at least as long as the peek is accepted by the format guesser whatever its final error:
+that error is then met by the chunk reader (`readChunks_error_fatal`) -/
+theorem guessPeek_long_ok (peek : Nat) (s : Stream) (hlen : peek ≤ s.data.length) :
+    guessPeek peek s = .ok := by
+  unfold guessPeek readFull
+  simp [hlen]
+
+example : guessPeek 8 ⟨exData, .ueof⟩ = .ok := guessPeek_long_ok _ _ (by decide)
+
+/-! ## `readFull` -/
+
+/-- `readFull` returns the next `k` bytes of the stream (fewer if the stream ends), with no error iff
+`k` bytes were available and with the final error of the stream otherwise: the size of the pieces in
+which the bytes arrive is irrelevant -/
+theorem readFull_spec (s : Stream) (pos k : Nat) (hpos : pos ≤ s.data.length) :
+    (readFull s pos k).1 = (s.data.drop pos).take k ∧
+    ((readFull s pos k).2 = none ↔ pos + k ≤ s.data.length) ∧
+    (s.data.length < pos + k → (readFull s pos k).2 = some s.final) := by
+  refine ⟨readFull_fst s pos k, ?_, ?_⟩
+  · rw [readFull_snd]
+    by_cases h : k ≤ s.data.length - pos
+    · simp only [h, if_true, true_iff]; omega
+    · simp only [h, if_false]
+      constructor
+      · intro h'; cases h'
+      · intro h'; omega
+  · intro h
+    rw [readFull_snd]
+    have : ¬ k ≤ s.data.length - pos := by omega
+    simp [this]
+
+/-- the number of bytes returned by `readFull` -/
+theorem readFull_length (s : Stream) (pos k : Nat) :
+    (readFull s pos k).1.length = min k (s.data.length - pos) := by
+  rw [readFull_fst, List.length_take, List.length_drop]
+
+example : readFull ⟨exData, .ueof⟩ 3 4 = ([97, 99, 10, 62], none) := by decide
+example : readFull ⟨exData, .ueof⟩ 9 4 = ([103, 103, 10], some .ueof) := by decide
+example : (readFull ⟨exData, .ueof⟩ 9 4).2 = some .ueof :=
+  (readFull_spec ⟨exData, .ueof⟩ 9 4 (by decide)).2.2 (by decide)
+
+/-! ## the chunk reader -/
+
+/-- any read error other than a clean end of file is fatal, wherever in the stream it occurs and
+whatever the buffer size: neither the fuel of the inner loop nor the fuel of the outer loop of the
+model is exhausted before the final error of the stream has been seen -/
+theorem readChunks_error_fatal (split : Bytes → Int) (bufsz : Nat) (s : Stream) (hb : 2 ≤ bufsz)
+    (hs : SplitterOK split) (he : s.final ≠ Err.eof) :
+    (readChunks split bufsz s).2 = Outcome.fatal := by
+  obtain ⟨pairs, buff, _, _, h⟩ := readChunks_spec split bufsz s hb hs
+  rw [h]
+  cases hf : s.final
+  · exact absurd hf he
+  · rfl
+  · rfl
+
+/-- a stream that ends cleanly is read without error -/
+theorem readChunks_clean_ok (split : Bytes → Int) (bufsz : Nat) (s : Stream) (hb : 2 ≤ bufsz)
+    (hs : SplitterOK split) (he : s.final = Err.eof) :
+    (readChunks split bufsz s).2 = Outcome.ok := by
+  obtain ⟨pairs, buff, _, _, h⟩ := readChunks_spec split bufsz s hb hs
+  rw [h, he]
+  rfl
+
+/-- the outcome of the chunk reader is fatal exactly when the stream does not end cleanly -/
+theorem readChunks_fatal_iff (split : Bytes → Int) (bufsz : Nat) (s : Stream) (hb : 2 ≤ bufsz)
+    (hs : SplitterOK split) :
+    (readChunks split bufsz s).2 = Outcome.fatal ↔ s.final ≠ Err.eof := by
+  constructor
+  · intro h he
+    rw [readChunks_clean_ok split bufsz s hb hs he] at h
+    cases h
+  · exact readChunks_error_fatal split bufsz s hb hs
+
+/-- on a clean stream nothing is lost but end-of-line bytes: the stream is the concatenation of the
+delivered chunks, each followed by `\n` / `\r` bytes only (the chunks that are empty once their
+end-of-lines are stripped are not delivered) -/
+theorem readChunks_no_loss (split : Bytes → Int) (bufsz : Nat) (s : Stream) (hb : 2 ≤ bufsz)
+    (hs : SplitterOK split) (he : s.final = Err.eof) :
+    ∃ pairs : List (Bytes × Bytes),
+      (∀ p ∈ pairs, ∀ c ∈ p.2, c = 10 ∨ c = 13) ∧
+      (readChunks split bufsz s).1 = (pairs.map Prod.fst).filter (fun c => decide (0 < c.length)) ∧
+      s.data = (pairs.map (fun p => p.1 ++ p.2)).flatten := by
+  obtain ⟨pairs, buff, h1, h2, h⟩ := readChunks_spec split bufsz s hb hs
+  rw [h, he]
+  by_cases hbuf : buff.length > 0
+  · refine ⟨pairs ++ [(buff, [])], ?_, ?_, ?_⟩
+    · apply EolsOnly_append h1
+      intro p hp c hc
+      simp only [List.mem_singleton] at hp
+      subst hp
+      simp at hc
+    · have : chunksOf (pairs ++ [(buff, [])]) = chunksOf pairs ++ [buff] := by
+        rw [chunksOf_append]; simp [chunksOf]; omega
+      simp only [finish, hbuf, if_true]
+      exact this.symm
+    · have : joinPairs (pairs ++ [(buff, [])]) = joinPairs pairs ++ buff := by
+        rw [joinPairs_append]; simp [joinPairs]
+      exact (this.trans h2).symm
+  · refine ⟨pairs, h1, ?_, ?_⟩
+    · simp only [finish, hbuf, if_false]
+      rfl
+    · have : buff = [] := List.eq_nil_of_length_eq_zero (by omega)
+      rw [this, List.append_nil] at h2
+      exact h2.symm
+
+/-- on a clean stream the delivered bytes are a subsequence of the stream: nothing is invented,
+duplicated or reordered -/
+theorem readChunks_sublist (split : Bytes → Int) (bufsz : Nat) (s : Stream) (hb : 2 ≤ bufsz)
+    (hs : SplitterOK split) (he : s.final = Err.eof) :
+    (readChunks split bufsz s).1.flatten.Sublist s.data := by
+  obtain ⟨pairs, _, h2, h3⟩ := readChunks_no_loss split bufsz s hb hs he
+  rw [h2, h3]
+  exact chunksOf_flatten_sublist pairs
+
+/-- on a clean stream every byte other than `\n` / `\r` is delivered, in order -/
+theorem readChunks_content (split : Bytes → Int) (bufsz : Nat) (s : Stream) (hb : 2 ≤ bufsz)
+    (hs : SplitterOK split) (he : s.final = Err.eof) :
+    (readChunks split bufsz s).1.flatten.filter (fun c => !(c == 10 || c == 13)) =
+      s.data.filter (fun c => !(c == 10 || c == 13)) := by
+  obtain ⟨pairs, h1, h2, h3⟩ := readChunks_no_loss split bufsz s hb hs he
+  rw [h2, h3]
+  exact (chunksOf_filter pairs h1).symm
+
+/-- whatever the final error, the chunks delivered before it account for a prefix of the stream -/
+theorem readChunks_prefix (split : Bytes → Int) (bufsz : Nat) (s : Stream) (hb : 2 ≤ bufsz)
+    (hs : SplitterOK split) :
+    ∃ (pairs : List (Bytes × Bytes)) (rest : Bytes),
+      (∀ p ∈ pairs, ∀ c ∈ p.2, c = 10 ∨ c = 13) ∧
+      (readChunks split bufsz s).1 = (pairs.map Prod.fst).filter (fun c => decide (0 < c.length)) ∧
+      s.data = (pairs.map (fun p => p.1 ++ p.2)).flatten ++ rest := by
+  by_cases he : s.final = Err.eof
+  · obtain ⟨pairs, h1, h2, h3⟩ := readChunks_no_loss split bufsz s hb hs he
+    exact ⟨pairs, [], h1, h2, by rw [List.append_nil]; exact h3⟩
+  · obtain ⟨pairs, buff, h1, h2, h⟩ := readChunks_spec split bufsz s hb hs
+    refine ⟨pairs, buff, h1, ?_, h2.symm⟩
+    rw [h]
+    cases hf : s.final
+    · exact absurd hf he
+    · rfl
+    · rfl
+
+/-! ## the FASTA splitter of the model satisfies the contract -/
+
+/-- `endOfLastFastaEntry` returns `-1` or an offset in `1 .. length-1` -/
+theorem fasta_splitter_range (b : Bytes) :
+    endOfLastFastaEntry b = -1 ∨ (1 ≤ endOfLastFastaEntry b ∧ endOfLastFastaEntry b < (b.length : Int)) :=
+  fastaScan_inv b.toArray b.length (b.length + 1) b.length 0 0 (Nat.le_refl _)
+    (fun h => by cases h) (fun h => by cases h)
+
+theorem fasta_splitter_ok : SplitterOK endOfLastFastaEntry := by
+  intro b
+  rcases fasta_splitter_range b with h | ⟨h1, h2⟩
+  · exact Or.inl h
+  · exact Or.inr ⟨h1, by omega⟩
+
+example : endOfLastFastaEntry exData = 6 := by decide
+example : endOfLastFastaEntry [62, 97, 10] = -1 := by decide
+example : endOfLastFastaEntry [10, 62, 97, 10] = 1 := by decide
+
+/-! ## the theorems on the example stream, with the FASTA splitter -/
+
+example : readChunks endOfLastFastaEntry 8 ⟨exData, .ueof⟩ =
+    ([[62, 97, 10, 97, 99], [62, 98, 10, 103, 103]], .fatal) := by decide
+
+example : (readChunks endOfLastFastaEntry 8 ⟨exData, .ueof⟩).2 = .fatal :=
+  readChunks_error_fatal _ 8 ⟨exData, .ueof⟩ (by decide) fasta_splitter_ok (by decide)
+
+example : (readChunks endOfLastFastaEntry 2 ⟨exData, .other⟩).2 = .fatal :=
+  readChunks_error_fatal _ 2 ⟨exData, .other⟩ (by decide) fasta_splitter_ok (by decide)
+
+example : readChunks endOfLastFastaEntry 8 ⟨exData, .eof⟩ =
+    ([[62, 97, 10, 97, 99], [62, 98, 10, 103, 103]], .ok) := by decide
+
+example : (readChunks endOfLastFastaEntry 8 ⟨exData, .eof⟩).2 = .ok :=
+  readChunks_clean_ok _ 8 ⟨exData, .eof⟩ (by decide) fasta_splitter_ok rfl
+
+/-- the decomposition of `readChunks_no_loss` on the example stream -/
+example :
+    let pairs : List (Bytes × Bytes) := [([62, 97, 10, 97, 99], [10]), ([62, 98, 10, 103, 103], [10])]
+    (∀ p ∈ pairs, ∀ c ∈ p.2, c = 10 ∨ c = 13) ∧
+    (readChunks endOfLastFastaEntry 8 ⟨exData, .eof⟩).1 =
+      (pairs.map Prod.fst).filter (fun c => decide (0 < c.length)) ∧
+    exData = (pairs.map (fun p => p.1 ++ p.2)).flatten := by decide
+
+example : (readChunks endOfLastFastaEntry 8 ⟨exData, .eof⟩).1.flatten.Sublist exData :=
+  readChunks_sublist _ 8 ⟨exData, .eof⟩ (by decide) fasta_splitter_ok rfl
+
+/-- a stream shorter than the buffer that is cut by an error: fatal, nothing delivered -/
+example : readChunks endOfLastFastaEntry 100 ⟨exData, .ueof⟩ = ([], .fatal) := by decide
+
+/-- blank lines between records are dropped, and only they; the rest of the buffer pushed after the
+clean end of file keeps its end-of-line -/
+example : readChunks endOfLastFastaEntry 8 ⟨[62, 97, 10, 97, 10, 10, 13, 10, 62, 98, 10, 103, 10], .eof⟩ =
+    ([[62, 97, 10, 97], [62, 98, 10, 103, 10]], .ok) := by decide
+
+/-! ## the hypotheses are needed
+
+Without them the Go loops do not terminate; the model then runs out of fuel and answers `ok`. -/
+
+/-- a splitter that answers 0 (excluded by `SplitterOK`) never shortens the buffer -/
+example : readChunks (fun _ => 0) 8 ⟨exData, .ueof⟩ = ([[62, 97, 10, 97, 99, 10, 62, 98]], .ok) := by decide
+
+/-- with `bufsz = 1` the inner loop reads `bufsz - 1 = 0` bytes per turn and never meets the error -/
+example : readChunks endOfLastFastaEntry 1 ⟨exData, .ueof⟩ = ([[62]], .ok) := by decide
 
 end ObiVerif.Props.C17
